@@ -156,6 +156,9 @@ type instance struct {
 	// clientUnsub: the client sent an unsubscribe for this instance's id after
 	// subscribing it
 	clientUnsub bool
+	// doomed: the query cannot be executed (bad directive argument): no update
+	// may ever be sent for it
+	doomed bool
 }
 
 type logEvent struct {
@@ -364,7 +367,13 @@ func (h *connHarness) onWrite(m *wireMsg) {
 			msg == "duplicate subscription" || msg == "too many subscriptions" || msg == "unknown message type"
 		if !okMsg {
 			// client errors of parsing / validation are safe by construction; anything else is not
-			if !m.byLoop {
+			// (the same goes for a directive argument rejected when the query is
+			// first executed: thunder's own client error about the request text)
+			doomed := false
+			if in := h.live[m.id]; in != nil && in.doomed {
+				doomed = strings.Contains(msg, "directive") || strings.Contains(msg, "\"if\" argument")
+			}
+			if !m.byLoop && !doomed {
 				c.ViolateFor("C16", "unsanitised-error-envelope", "error envelope with message %q is neither a safe error of the request nor the generic message", msg)
 			}
 		}
@@ -395,6 +404,9 @@ func (h *connHarness) onWrite(m *wireMsg) {
 		}
 		if in.initialErr {
 			c.ViolateFor("C16,C17", "update-after-initial-failure", "instance %d (id %s) got an update after its error envelope", in.inst, in.id)
+		}
+		if in.doomed {
+			c.ViolateFor("C15,C16", "update-for-unexecutable-query", "instance %d (id %s) cannot be executed (bad @skip/@include argument) but got an update: %s\nquery: %s", in.inst, in.id, short(m.msg), in.text)
 		}
 		if !in.gotFirst {
 			in.gotFirst = true
@@ -487,7 +499,7 @@ func (h *connHarness) expected(in *instance) (interface{}, bool) {
 
 func connBody(c *runner.Ctx) {
 	w := newWorld(c)
-	w.live = &liveState{w: w, trackers: map[string][]*liveRes{}, failNext: map[string]int{}, failKind: map[string]int{}}
+	w.live = &liveState{w: w, trackers: map[string][]*liveRes{}, failNext: map[string]int{}, failKind: map[string]int{}, execFired: map[int]int{}}
 	h := &connHarness{c: c, w: w, live: map[string]*instance{}, echoes: map[string]int{}, loopErrors: map[int]int{}}
 	w.live.onCanceled = func(inst int) {
 		if inst >= 0 && inst < len(h.instances) {
@@ -540,8 +552,31 @@ func connBody(c *runner.Ctx) {
 			inst = int(f)
 		}
 		input.Ctx = context.WithValue(input.Ctx, instKey{}, inst)
+		if l := w.live; l != nil { // (nil while the harness runs its own reference execution)
+			delete(l.execFired, inst) // a new computation of this instance begins
+		}
 		return next(input)
 	})
+	// further pass-through middlewares (applications register several: auth,
+	// tracing, metrics); some take a while, so that computations of different
+	// operations are inside the chain at the same time
+	nMw := c.Choose(5, "extra-middlewares")
+	for i := 0; i < nMw; i++ {
+		slow := c.Choose(3, "middleware-slow")
+		conn.Use(func(input *graphql.ComputationInput, next graphql.MiddlewareNextFunc) *graphql.ComputationOutput {
+			switch slow {
+			case 1:
+				simrt.Yield()
+			case 2:
+				simrt.Sleep(time.Millisecond)
+			}
+			out := next(input)
+			if slow == 1 {
+				simrt.Yield()
+			}
+			return out
+		})
+	}
 	c.Describe("world A=%d B=%d C=%d maxSubs=%d minInterval=%v alwaysSpawn=%v modes: %s", w.nA, w.nB, w.nC, h.maxSubs, minInterval, spawn, strings.Join(modeDesc, " "))
 	go func() {
 		conn.ServeJSONSocket()
@@ -648,6 +683,16 @@ func connBody(c *runner.Ctx) {
 			in := &instance{inst: len(h.instances), id: id, root: &qset{sels: []*qsel{{name: "n"}}}, text: sb.String()}
 			h.instances = append(h.instances, in)
 			h.send("subscribe", id, map[string]interface{}{"query": in.text, "variables": map[string]interface{}{"inst": in.inst}}, in)
+		case op == 10 && h.faulty && c.Choose(2, "garbage-or-doomed") == 0:
+			// well-formed GraphQL that cannot be executed (bad directive argument):
+			// the subscription must be answered with an error and closed
+			text, vars := doomedQuery(c)
+			c.Fault("unexecutable-directive")
+			desc = append(desc, "doomed("+text+")")
+			in := &instance{inst: len(h.instances), id: id, root: &qset{sels: []*qsel{{name: "n"}}}, text: text, doomed: true, failedBeforeFirst: true}
+			h.instances = append(h.instances, in)
+			vars["inst"] = in.inst
+			h.send("subscribe", id, map[string]interface{}{"query": text, "variables": vars}, in)
 		case op == 10 && h.faulty:
 			desc = append(desc, "garbage")
 			c.Fault("garbage-envelope")
